@@ -4,7 +4,7 @@ d=$(readlink -f "$1"); prop=$2; tier=${3:-quick}
 wt=/tmp/mut/run_$(basename "$d")_$prop; rm -rf "$wt"; mkdir -p /tmp/mut
 git -C /repo worktree add -q --detach "$wt" HEAD || exit 2
 ( cd "$wt" && { git apply "$d/patch.diff" 2>/dev/null || git apply -3 "$d/patch.diff" 2>/dev/null || echo "APPLY-FAILED"; } )
-cd /verif
+cd ${VERIF_HOME:-/verif}
 VERIF_REPO="$wt" ./check "$prop" --tier "$tier" > "/tmp/mut/out_$(basename "$d")_$prop.txt" 2>&1; rc=$?
 sigs=$(grep -o 'signature=[^ ]*' "/tmp/mut/out_$(basename "$d")_$prop.txt" | sort -u | tr '\n' ' ')
 echo "$(basename "$d") $prop rc=$rc $sigs $(grep -m1 -E 'MACHINERY|APPLY' /tmp/mut/out_$(basename "$d")_$prop.txt | cut -c1-200)"
